@@ -51,5 +51,8 @@ G_SixVictims        == ~(apc = "new_set" /\ Len(areg.victims) >= 6)
 G_ZeroCostVictim    == ~(apc \in {"new_set", "new_rej"} /\ zeroVictim)
 G_RefusedRewrite    == ~(\E c \in Clients : pc[c] = "set_send" /\ creg[c].t = "new" /\ creg[c].val \in RefuseVals /\
                           store[creg[c].h] # NULL /\ store[creg[c].h].exp # creg[c].exp)
+G_TakeoverExpiredSlot == ~(apc = "new_set" /\ store[areg.item.h] # NULL /\ ~ConfOK(areg.item.conf, store[areg.item.h].conf)
+                            /\ store[areg.item.h].exp # 0 /\ store[areg.item.h].exp < now)
+G_CollidingDel      == ~(apc = "del_store" /\ store[areg.item.h] # NULL /\ ~ConfOK(areg.item.conf, store[areg.item.h].conf))
 G_RaiseCost         == ~(raised /\ used > maxCost)
 =============================================================================
